@@ -43,6 +43,13 @@ func isInSchemaRegistry(typ reflect.Type) (Schema, bool) {
 }
 
 func schemaForType(typ reflect.Type) (Schema, error) {
+	return schemaForTypeIn(typ, nil)
+}
+
+// schemaForTypeIn builds the schema for typ. open lists the struct types whose
+// schemas are being built further up, so a type that contains itself is
+// reported as an error rather than recursing until the stack overflows.
+func schemaForTypeIn(typ reflect.Type, open []reflect.Type) (Schema, error) {
 	if s, ok := isInSchemaRegistry(typ); ok {
 		return s, nil
 	}
@@ -59,14 +66,19 @@ func schemaForType(typ reflect.Type) (Schema, error) {
 	case reflect.String:
 		return Schema{Type: "string"}, nil
 	case reflect.Struct:
-		return schemaForStruct(typ)
+		for _, o := range open {
+			if o == typ {
+				return Schema{}, fmt.Errorf("recursive type %s not supported", typ)
+			}
+		}
+		return schemaForStruct(typ, append(open, typ))
 	case reflect.Array, reflect.Slice:
-		return schemaForArray(typ)
+		return schemaForArray(typ, open)
 	case reflect.Map:
-		return schemaForMap(typ)
+		return schemaForMap(typ, open)
 	case reflect.Pointer:
 		// If this is a pointer to a basic type then we don't need to wrap in a union as all the basic types are nullable.
-		underlying, err := schemaForType(typ.Elem())
+		underlying, err := schemaForTypeIn(typ.Elem(), open)
 		if err != nil {
 			return Schema{}, fmt.Errorf("getting underlying schema for pointer: %w", err)
 		}
@@ -89,7 +101,7 @@ func nullableSchema(s Schema) Schema {
 	}
 }
 
-func schemaForStruct(typ reflect.Type) (Schema, error) {
+func schemaForStruct(typ reflect.Type, open []reflect.Type) (Schema, error) {
 	fields := make([]SchemaRecordField, 0, typ.NumField())
 	for i := 0; i < typ.NumField(); i++ {
 		field := typ.Field(i)
@@ -98,7 +110,7 @@ func schemaForStruct(typ reflect.Type) (Schema, error) {
 			continue
 		}
 
-		s, err := schemaForType(field.Type)
+		s, err := schemaForTypeIn(field.Type, open)
 		if err != nil {
 			return Schema{}, fmt.Errorf("getting schema for field %s: %w", name, err)
 		}
@@ -127,7 +139,7 @@ func schemaForStruct(typ reflect.Type) (Schema, error) {
 
 var namespaceReplacer = strings.NewReplacer("/", ".", "-", "_")
 
-func schemaForArray(typ reflect.Type) (Schema, error) {
+func schemaForArray(typ reflect.Type, open []reflect.Type) (Schema, error) {
 	elem := typ.Elem()
 	if elem.Kind() == reflect.Uint8 {
 		return Schema{
@@ -135,7 +147,7 @@ func schemaForArray(typ reflect.Type) (Schema, error) {
 		}, nil
 	}
 
-	s, err := schemaForType(elem)
+	s, err := schemaForTypeIn(elem, open)
 	if err != nil {
 		return Schema{}, fmt.Errorf("building array schema: %w", err)
 	}
@@ -148,8 +160,8 @@ func schemaForArray(typ reflect.Type) (Schema, error) {
 	}, nil
 }
 
-func schemaForMap(typ reflect.Type) (Schema, error) {
-	s, err := schemaForType(typ.Elem())
+func schemaForMap(typ reflect.Type, open []reflect.Type) (Schema, error) {
+	s, err := schemaForTypeIn(typ.Elem(), open)
 	if err != nil {
 		return Schema{}, err
 	}
